@@ -38,6 +38,11 @@ theorem step_static (s : State) (e : Event) : Static (step s e).1 = Static s := 
     cases s.linkIdx ifID with
     | none => rfl
     | some i => simp [Static, setSession_static]
+  | recvDisc ifID r yd =>
+    simp only [step]
+    cases s.linkIdx ifID with
+    | none => rfl
+    | some i => by_cases h : acceptsYourDisc yd r = true <;> simp [h, Static, setSession_static]
   | pkt a b => rfl
   | ohp b => rfl
 
@@ -67,6 +72,12 @@ theorem timeout_effect (s : State) (ifID i : Nat) (hi : s.linkIdx ifID = some i)
       else (s.links[j]?).map (·.session) := by
   simp only [step, hi]
   exact setSession_session s.links i j _
+
+/-- **A control message with Your Discriminator 0 and State Init or Up never reaches the session**: no
+    state changes, so a Down link cannot be brought Up by a single unsolicited Init/Up packet -/
+theorem zero_disc_init_up_discarded (s : State) (ifID : Nat) (r : St) (hr : r = .init ∨ r = .up) :
+    (step s (.recvDisc ifID r 0)).1 = s := by
+  rcases hr with rfl | rfl <;> simp only [step] <;> cases s.linkIdx ifID <;> simp [acceptsYourDisc]
 
 /-- packets do not change any state -/
 theorem pkt_no_effect (s : State) (a b : Nat) : (step s (.pkt a b)).1 = s := rfl
@@ -139,6 +150,12 @@ theorem down_never_forwarded_partial (s0 : State) (h : List Event) :
     simp only [step] at hs
     cases hi : t.1.linkIdx ifID <;> simp [hi] at hs
   | ohp b => rw [hev] at hno; cases hno
+  | recvDisc ifID r yd =>
+    rw [hev] at hs
+    simp only [step] at hs
+    cases hi : t.1.linkIdx ifID with
+    | none => simp [hi] at hs
+    | some i => by_cases h : acceptsYourDisc yd r = true <;> simp [hi, h] at hs
   | pkt a b =>
     rw [hev] at hs
     simp only [step, egressUp] at hs
@@ -198,6 +215,15 @@ theorem no_bfd_stays (s : State) (e : Event) (j : Nat) (l : Link)
   cases e with
   | pkt a b => exact ⟨l, hl, hn, rfl⟩
   | ohp b => exact ⟨l, hl, hn, rfl⟩
+  | recvDisc ifID r yd =>
+    simp only [step]
+    cases s.linkIdx ifID with
+    | none => exact ⟨l, hl, hn, rfl⟩
+    | some i =>
+      by_cases h : acceptsYourDisc yd r = true
+      · simp only [h, if_true, setSession, List.getElem?_modify, hl]
+        by_cases h' : i = j <;> simp [h', hn]
+      · simp only [h]; exact ⟨l, hl, hn, rfl⟩
   | recv ifID r =>
     simp only [step]
     cases s.linkIdx ifID with
